@@ -1276,6 +1276,11 @@ def run(out: Outcome) -> None:
         if reported >= 3:
             break
 
+    # ---- stage iii-b: parsers built from another parser's optimized rule table
+    for f in derived_table_failures()[:2]:
+        out.violation({"kind": "derived-table", **f, "seed": seed(), "command": "./check C15 --replay <this file>"})
+        reported += 1
+
     # ---- stage iv: threads
     tjobs = [gen_thread_job(random.Random(rng.randrange(1 << 30)), pool, thorough, i) for i in range(256 if thorough else 32)]
     tres = run_jobs(tjobs)
@@ -1373,8 +1378,81 @@ def describe(s: dict) -> str:
     return f"{s.get('p') or s.get('x')}.parse({s['rule']!r}, {text[:40]!r}, start_pos={s['k']})"
 
 
+# ---------------------------------------------------------------- parsers built from another parser's (optimized) rule table
+
+DERIVED_GRAMMARS = [
+    ('alpha = _{ \'a\'..\'z\' | \'A\'..\'Z\' }\nident = @{ (alpha | "_") ~ (alpha | "_" | \'0\'..\'9\')* }\nword = @{ alpha+ }\nnum = @{ (\'0\'..\'9\' | "_")+ }',
+     [("word", "ab_1"), ("word", "ab"), ("ident", "1abc"), ("ident", "_a1"), ("word", "_"), ("num", "1_2"), ("num", "a")]),
+    ('WHITESPACE = _{ " " | "\\t" }\nsep = _{ "," | ";" }\nitem = { (\'a\'..\'c\' | sep)+ }\nlist = { item ~ (sep ~ item)* }\nraw = @{ (!sep ~ ANY)* }',
+     [("list", "a, b;c"), ("item", "a,b"), ("raw", "ab ,c"), ("list", "a b"), ("raw", "")]),
+    ('kw = _{ ^"on" | ^"off" }\nflag = { kw | \'0\'..\'1\' }\nflags = { flag+ }\nname = @{ (kw | "_")+ }',
+     [("flags", "ON0off1"), ("flag", "2"), ("name", "on_OFF"), ("name", "x"), ("flags", "")]),
+]
+
+
+def _derived_scenario(job):
+    """one scenario in its own process: [p1 = from_grammar(g, opt1)] [+ parsers built from p1.rules, used or not] then p1's calls"""
+    gtext, calls, opt1, derive, use_first = job
+    use_repo()
+    from pest import Parser
+    from pest.grammar.optimizer import DEFAULT_OPTIMIZER
+    o1 = DEFAULT_OPTIMIZER if opt1 == "default" else None
+    p1 = Parser.from_grammar(gtext, optimizer=o1)
+    outs = []
+    if derive:
+        others = [Parser(p1.rules, p1.doc, optimizer=DEFAULT_OPTIMIZER), Parser(p1.rules, p1.doc, optimizer=None)]
+        if use_first:
+            for q in others:
+                for r, t in calls:
+                    outs.append(("other", E.enc_struct(E.run_struct(q.parse, r, t, 0))[:300]))
+    res = [E.enc_struct(E.run_struct(p1.parse, r, t, 0))[:600] for r, t in calls]
+    return res, outs
+
+
+def derived_table_failures() -> list[dict]:
+    """a Parser built from another parser's rule table - the optimized table p1.rules, with or without an optimizer of its own -
+    must leave p1 as it is: p1's results after such parsers were built (and used) equal p1's results in a process where they
+    never existed.  Each scenario runs in a process of its own."""
+    from common import run_killable
+    jobs = []
+    for gtext, calls in DERIVED_GRAMMARS:
+        for opt1 in ("default", "none"):
+            jobs.append((gtext, calls, opt1, False, False))
+            jobs.append((gtext, calls, opt1, True, False))
+            jobs.append((gtext, calls, opt1, True, True))
+    got = {}
+    # run_killable does not say which job an answer belongs to: run them one by one, in order (they are few and fast)
+    for j in jobs:
+        for kind, res in run_killable(_derived_scenario, [j], 120.0, 1):
+            got[j[:1] + (tuple(j[1]),) + j[2:]] = res if kind == "ok" else None
+    bad = []
+    for gtext, calls in DERIVED_GRAMMARS:
+        for opt1 in ("default", "none"):
+            base = got.get((gtext, tuple(calls), opt1, False, False))
+            for use_first in (False, True):
+                cur = got.get((gtext, tuple(calls), opt1, True, use_first))
+                if base is None or cur is None:
+                    continue
+                for (r, t), a, b in zip(calls, base[0], cur[0]):
+                    if a != b:
+                        bad.append({"grammar": gtext, "optimizer": opt1, "rule": r, "input": t, "expected": a, "observed": b,
+                                    "what": "a parser's result changed after other parsers were built from its rule table"
+                                            + (" and used" if use_first else ""),
+                                    "history_readable": [f"p1 = Parser.from_grammar(text, optimizer={opt1})",
+                                                         "p2 = Parser(p1.rules, p1.doc, optimizer=DEFAULT_OPTIMIZER)", "p3 = Parser(p1.rules, p1.doc, optimizer=None)"]
+                                                        + (["p2.parse(...), p3.parse(...) on every call below"] if use_first else [])
+                                                        + [f"p1.parse({r!r}, {t!r})"]})
+    return bad
+
+
 def replay(out: Outcome, payload: dict) -> None:
     out.coverage = {"explanation": "replay of one recorded case", "evaluations": 1, "distinct_nontrivial": 2, "samples": [payload.get("what", "")]}
+    if payload.get("kind") == "derived-table":
+        for f in derived_table_failures():
+            if (f["grammar"], f["optimizer"], f["rule"], f["input"]) == tuple(payload.get(k) for k in ("grammar", "optimizer", "rule", "input")):
+                out.violation(payload)
+                return
+        return
     if payload.get("kind") == "history":
         hist = {"texts": payload["texts"], "steps": payload["steps"]}
         bad, res = failing(hist, Oracle(exact=True))
